@@ -166,7 +166,7 @@ PROPS.update({
                        "thorough": {"distinct_nontrivial": 800, "obs.dispatch_ok": 6000}}},
     "C05": {"level": "exploration", "owns_aborts": True,
             "variants": {"quick": ["rel", "chk"], "thorough": ["rel", "chk"]},
-            "technique": "runtime monitor on run_dispatch results and the hook's final snapshot (route validity, free-running lower bound per leg, iteration bound) in two builds: as shipped and with debug-assertions/overflow-checks for altrios-core (ub_checks on the get_unchecked sentinel searches); valgrind memcheck on the shipped-profile binary (both tiers) and AddressSanitizer and Miri runs (thorough tier) of the same dispatch workload",
+            "technique": "runtime monitor on run_dispatch results and the hook's final snapshot (route validity, free-running lower bound per leg, iteration bound) in two builds: as shipped and with debug-assertions/overflow-checks for altrios-core (ub_checks on the get_unchecked sentinel searches); a committed regression corpus of 21 dispatch instances that once exposed a defect (both tiers), valgrind memcheck on the shipped-profile binary (both tiers) and AddressSanitizer and Miri runs (thorough tier) of the same dispatch workload",
             "level_text": "Every returned plan is checked for completeness and validity against the network and the train's own estimated-time network; panics/aborts in either build are violations; bounded progress decided on logical steps (advance attempts per outer iteration <= 20000, outer iterations <= 200 x dispatch nodes; observed maxima recorded). Memory safety is 'no report on the executions observed' from ub_checks and valgrind memcheck (all runs) and ASan / Miri (thorough); the evidence counts how often each of the five unsafe blocks was executed under each engine.",
             "level_note": DISP_NOTE + " Unbounded termination is restated as bounded progress. A clean sanitizer run is not a proof of memory safety.",
             "floors": {"quick": {"distinct_nontrivial": 20, "obs.dispatch_ok": 300, "obs.legs_checked": 20000, "obs.rewinds": 20, "obs.trains_rerouted_off_the_shortest_route": 5},
